@@ -125,7 +125,11 @@ def intersect_tetrahedron_pair(tetrahedron1, epsilon1, X1,
     """
     contact_plane_hnf, same = contact_plane(X1, X2, epsilon1, epsilon2, youngs_modulus1, youngs_modulus2)
     if same:
-        return True, _handle_same_tetrahedron(epsilon2, tetrahedron2)
+        if np.all(tetrahedron1 == tetrahedron2):
+            return True, _handle_same_tetrahedron(epsilon2, tetrahedron2)
+        # Different tetrahedra with identical pressure fields do not have a
+        # contact surface.
+        return False, (contact_plane_hnf, None)
 
     plane_normal = contact_plane_hnf[:3]
     d = contact_plane_hnf[3]
